@@ -18,10 +18,10 @@ var (
 )
 
 type pqGen struct {
-	r      *rand.Rand
-	depth  int
-	bias   string // "C04" or "C12": C12 leans towards joins / set operators / comparisons of constants
-	hist   func(string)
+	r     *rand.Rand
+	depth int
+	bias  string // "C04" or "C12": C12 leans towards joins / set operators / comparisons of constants
+	hist  func(string)
 }
 
 func (g *pqGen) p(n int) bool { return g.r.Intn(n) == 0 }
@@ -139,7 +139,7 @@ func (g *pqGen) aggregation(d int) string {
 	case 1:
 		head, body = pick(g.r, []string{"topk", "bottomk"}), "1, "+inner
 	case 2:
-		dst := pick(g.r, []string{"cv", "a", "job"})
+		dst := pick(g.r, []string{"cv", "a", "job", "cv", "a", "__name__"})
 		head, body = "count_values", fmt.Sprintf(`"%s", %s`, dst, inner)
 	default:
 		head, body = pick(g.r, pqAggOps), inner
@@ -350,7 +350,11 @@ func (g *pqGen) scalar(d int) string {
 	switch g.r.Intn(10) {
 	case 0:
 		g.hist("node:scalar()")
-		// single-branch argument only: see notes/C04.md (slice aliasing of duplicated sources)
+		if g.p(3) {
+			// several result branches in a scalar operand: parseBinOps copies the vector side once per branch
+			g.hist("node:scalar(multi-branch)")
+			return fmt.Sprintf("scalar(%s or %s)", g.selector(), g.selector())
+		}
 		return fmt.Sprintf("scalar(%s)", g.selector())
 	case 1:
 		return pick(g.r, []string{"time()", "pi()"})
@@ -461,5 +465,66 @@ func pqSystematic() []string {
 			}
 		}
 	}
+	return out
+}
+
+// pqShapes: operands over metric m covering the label bookkeeping states of a Source for label a (and b):
+// not fixed / fixed x included / guaranteed / excluded / absent from every list.
+func pqShapes(m string) []string {
+	return []string{
+		m,
+		m + `{a="1"}`,
+		m + `{a=""}`,
+		m + `{a="1", b="2", c="1"}`,
+		"sum(" + m + ")",
+		"sum by(a) (" + m + ")",
+		"sum by(a, b) (" + m + `{a="1"})`,
+		"sum without(a) (" + m + ")",
+		"sum without(a) (" + m + `{a="1", b="2"})`,
+		"(" + m + " * on(a) baz)",
+		"(" + m + " * ignoring(a) baz)",
+		`label_replace(sum(` + m + `), "a", "x", "", "")`,
+		`count_values("a", ` + m + ")",
+		"absent(" + m + `{a="1", job="x"})`,
+		"(" + m + `{a="1", b="2", c="1"} > scalar(bar or baz))`,
+		"(" + m + " or sum by(a) (bar))",
+	}
+}
+
+// pqSystematicAlways: strata small enough to be complete in every tier.
+func pqSystematicAlways() []string {
+	out := []string{}
+	// S5: aggregation over every operand shape: by(...) in both orders, without(...), topk, count_values
+	// (maybeIncludeLabel / restrictIncludedLabels / restrictGuaranteedLabels / FixedLabels / excludeMetricName)
+	outers := []string{"sum by(a, b) (%s)", "sum by(b, a) (%s)", "sum by(b) (%s)", "sum by(__name__, b) (%s)", "sum without(a) (%s)", "sum without(b) (%s)",
+		"topk(1, %s)", `count_values("b", %s)`, `count_values("__name__", %s) by(a)`, `count_values("__name__", %s) without(a)`}
+	for _, o := range outers {
+		for _, in := range pqShapes("foo") {
+			out = append(out, fmt.Sprintf(o, in))
+		}
+	}
+	// S6: twice-shaped operands as the driving side of joins (canJoin reads Included/Guaranteed/Excluded/Fixed)
+	twice := []string{}
+	for _, o := range []string{"sum by(b) (%s)", "sum without(c) (%s)", "abs(%s)"} {
+		for _, in := range []string{`foo{a="1"}`, `sum by(a, b) (foo{a="1"})`, `sum without(a) (foo{a="1", b="2"})`, `(foo{a="1", b="2", c="1"} > scalar(bar or baz))`,
+			`(foo{a="1"} * on(a, b) baz)`} {
+			twice = append(twice, fmt.Sprintf(o, in))
+		}
+	}
+	for _, op := range []string{"and", "*"} {
+		for _, m := range []string{"", " on(b)", " ignoring(c)"} {
+			for _, l := range twice {
+				for _, r := range []string{"sum by(b) (bar)", "sum by(b, c) (bar)"} {
+					out = append(out, fmt.Sprintf("%s %s%s %s", l, op, m, r))
+				}
+			}
+		}
+	}
+	// S7: absent()/absent_over_time() over dead, always-returning and ordinary operands, bare and as the deciding
+	// operand of on() set operators
+	for _, in := range []string{"foo", `foo{a="1"}`, "vector(1)", "vector(1) > 2", "foo unless on() vector(1)", "foo and on(a) sum(bar)", "sum(foo)"} {
+		out = append(out, "absent("+in+")", "foo unless on() absent("+in+")", "absent("+in+") or on() foo", "absent("+in+") and on() vector(1)")
+	}
+	out = append(out, "absent_over_time(foo[5m])", "foo unless on() absent_over_time(foo[5m])", `absent_over_time(foo{a="1"}[5m]) or on() bar`)
 	return out
 }
